@@ -36,13 +36,14 @@ import time
 import traceback
 from multiprocessing import get_context
 
-from lib import core
+from lib import core, pipeline
 from lib.coqgen import coq_str, coq_bool, coq_option, coq_Z
 
 ID = 'C19'
-COQ_CONE = ['Properties/C19.v']
+COQ_CONE = ['Properties/C19.v', 'Properties/Pipeline.v']
 EXTRACT = 'Extract/C19Extract.v'
 DRIVER = 'ocaml/C19_driver.ml'
+EXTRA_BINARIES = [pipeline.PIPELINE_BINARY]
 ASSUMPTIONS = [
     'partial: C19_inv / C19_redirect_commit / C19_decline assume that open pull requests have pairwise distinct '
     'source branches (C19_inv_full and C19_decline_own_full are refuted; witness corpus/C19/same_source_*.json)',
@@ -857,6 +858,9 @@ def run(ctx):
     with mp.Pool(16) as pool:
         results = pool.map(_worker, tasks, chunksize=1)
     _collect(ctx, results)
+    k = 16 if ctx.quick else 150
+    ctx.rule += pipeline.TIE_RULE % k
+    pipeline.tie(ctx, k)
 
 
 def replay(ctx, data):
